@@ -981,8 +981,15 @@ func vrFollow(x *vrRun, p vrPathIn, out *vrPathOut) bool {
 	div := false
 	// normal steps take well under a millisecond, the retry timer 100 ms
 	const tmo = 10 * time.Second
-	const retryTmo = 2 * time.Second
 	for _, s := range p.Steps {
+		// How long to wait for the 100 ms retry timer / a queued
+		// notification the path expects.  Once the code has left the
+		// model's prediction the rest of the path is fed as far as it
+		// applies, without long waits for things that may never come.
+		retryTmo := 2 * time.Second
+		if div {
+			retryTmo = 300 * time.Millisecond
+		}
 		a := s.Act
 		if a.Add == nil {
 			a.Add = []int{}
